@@ -382,10 +382,19 @@ fn evaluate_single_inline_expression(
     let heap = Rc::new(RefCell::new(Heap::new()));
 
     // Convert inputs to Values
-    let inputs: IndexMap<String, _> = inputs_given
+    let inputs: IndexMap<String, _> = match inputs_given
         .iter()
-        .map(|(key, value)| (key.clone(), value.to_value(&mut heap.borrow_mut()).unwrap()))
-        .collect();
+        .map(|(key, value)| {
+            value
+                .to_value(&mut heap.borrow_mut())
+                .map(|v| (key.clone(), v))
+                .map_err(|e| format!("Failed to convert input '{}': {}", key, e))
+        })
+        .collect::<Result<IndexMap<String, _>, String>>()
+    {
+        Ok(inputs) => inputs,
+        Err(error) => return ExpressionResult::Error { error },
+    };
 
     let bindings = Rc::new(Environment::new());
 
@@ -416,6 +425,11 @@ fn evaluate_single_inline_expression(
         match pair.as_rule() {
             Rule::statement => {
                 if let Some(inner_pair) = pair.into_inner().next() {
+                    // Skip comments - they don't need to be evaluated
+                    if inner_pair.as_rule() == Rule::comment {
+                        continue;
+                    }
+
                     let inner_pairs = inner_pair.into_inner();
 
                     match evaluate_pairs(
